@@ -153,7 +153,7 @@ def stage_b(prop, cfg, tier, seed, log):
     """correspondence for the groups the property's theorems rest on"""
     import zones
     res = {"ok": True, "groups": {}, "cases": 0, "distinct": 0, "max_ulp": 0,
-           "mismatches": [], "samples": [], "error_kinds": {}, "tags": {}, "functions": {}}
+           "mismatches": [], "special": [], "samples": [], "error_kinds": {}, "tags": {}, "functions": {}}
     for spec in cfg.get("groups", []):
         modname, gname = spec["module"], spec["group"]
         n = spec["thorough"] if tier == "thorough" else spec["quick"]
@@ -230,11 +230,14 @@ def stage_b(prop, cfg, tier, seed, log):
                 res["error_kinds"][k] = res["error_kinds"].get(k, 0) + 1
             if not common.tokens_agree(norm(c.expected), norm(o), stats):
                 bad += 1
+                rec = {"group": gname, "function": c.fn, "request": c.request[:400],
+                       "implementation": c.expected[:400], "model": o[:400], "input": c.descr}
                 if len(res["mismatches"]) < 20:
-                    res["mismatches"].append({"group": gname, "function": c.fn,
-                                              "request": c.request[:400],
-                                              "implementation": c.expected[:400],
-                                              "model": o[:400], "input": c.descr})
+                    res["mismatches"].append(rec)
+                elif (c.expected[:1] in "EX" or o[:1] in "EX") and len(res["special"]) < 10:
+                    # an exception / wrongly typed value on one side only: the most telling kind,
+                    # kept even when ordinary numeric mismatches have filled the list
+                    res["special"].append(rec)
         res["groups"][gname] = {"cases": len(cases), "distinct": len(seen), "mismatches": bad,
                                 "wall_s": round(time.time() - t0, 2)}
         res["cases"] += len(cases)
@@ -330,7 +333,7 @@ def main():
         a = stage_a(prop, cfg, tier, log)
         b = stage_b(prop, cfg, tier, seed, log) if a["ok"] or os.path.exists(common.MODEL_EXE) else \
             {"ok": False, "groups": {}, "cases": 0, "distinct": 0, "max_ulp": 0, "mismatches": [],
-             "samples": [], "error_kinds": {}, "tags": {}, "functions": {}}
+             "special": [], "samples": [], "error_kinds": {}, "tags": {}, "functions": {}}
         klines, kviol, kreplayed = stage_k(prop, log)
     except subprocess.TimeoutExpired as exc:
         print("TIMEOUT", exc)
@@ -349,7 +352,10 @@ def main():
         import search
         replay_path = os.path.join("replays", "%s-%d.json" % (prop, seed))
         budget = 600 if tier == "thorough" else 120
-        broken = {"proof_failures": a["failures"], "correspondence_mismatches": b["mismatches"][:5],
+        ms = sorted(b["mismatches"], key=lambda m_: 0 if (m_["implementation"][:1] in "EX"
+                                                            or m_["model"][:1] in "EX") else 1)
+        broken = {"proof_failures": a["failures"],
+                  "correspondence_mismatches": (b.get("special", []) + ms)[:30],
                   "fixed_finding_regressions": kviol, "tier": tier,
                   "groups": cfg.get("groups", [])}
         def _hang2(signum, frame):
